@@ -19,6 +19,7 @@
 #include "jls/ec.h"
 #include "jls/time.h"
 #include <stdlib.h>
+#include <sys/mman.h>
 #include <string.h>
 #include <math.h>
 #include <unistd.h>
@@ -162,6 +163,21 @@ static void writer_phase(rng_t *r, const char *path, int threaded, int big) {
             /* a forward jump makes the writer store that many fill samples: keep the gap bounded (1M samples), the call is legitimate however long it takes */
             if (sid > (int64_t) q * 300 + (1 << 20) || sid < -(1LL << 50)) sid = rng_range(r, -100000, 100000);
             v_ctx("fsr id=%u sid=%lld n=%u bits=%d", id, (long long) sid, n, bits);
+            if (threaded && t && rng_chance(r, 1, 30)) {
+                /* a very large length: 2^32 bits of samples and a little more, from a buffer that really is that large (untouched zero pages) */
+                uint64_t hn = ((1ULL << 32) + (uint64_t) rng_below(r, 3) * 64 * 8) / (uint64_t) t->bits + (uint64_t) rng_below(r, 2);
+                if (hn <= UINT32_MAX) {
+                    size_t hb = (size_t) ((hn * (uint64_t) t->bits + 7) / 8);
+                    void *huge = mmap(NULL, hb, PROT_READ, MAP_PRIVATE | MAP_ANONYMOUS | MAP_NORESERVE, -1, 0);
+                    if (huge != MAP_FAILED) {
+                        v_ctx("huge fsr id=%u n=%llu bits=%d", id, (unsigned long long) hn, t->bits);
+                        CALL("jls_twr_fsr", jls_twr_fsr(tw, id, sid, huge, (uint32_t) hn));
+                        /* the writer thread may still hold the message: let it finish before the buffer goes away */
+                        CALL("jls_twr_flush", jls_twr_flush(tw));
+                        munmap(huge, hb);
+                    }
+                }
+            }
             if (threaded) {
                 /* the threaded writer copies n * bits(signal) bytes: the caller must size for the signal it names; undefined ids copy nothing useful */
                 if (t || id >= 256) CALL("jls_twr_fsr", jls_twr_fsr(tw, id, sid, buf, t ? n : 0));
